@@ -94,7 +94,7 @@ sub fn_i(INTEGER var.n) INTEGER {
 
 func init() {
 	register("C13",
-		"straight-line and branching core-language programs over a pool of locals of every type and req headers, plus calls of user subroutines with typed parameters (procedural and functional) that assign to their parameters and own locals and run regex matches, and side-effect-free built-ins; the interpreter is driven statement by statement and the rendering/type/set-ness of every pooled name and re.group.0-3 is snapshotted before and after each statement; oracle (frame conditions): a statement changes only the names it assigns (re.group.* only if it contains a regex match), a call leaves caller locals, capture groups and argument variables unchanged (parameters of type STRING, INTEGER, FLOAT, BOOL, RTIME, IP, TIME, REGEX and BACKEND, each assigned by the callee); TIME, BACKEND and REGEX locals, req.backend and the declared backend identifiers are part of the snapshot and are exercised by time arithmetic inside concatenations, backend assignments and REGEX assignments/parameters; every built-in of builtin.yml whose argument and return types are scalar (STRING INTEGER FLOAT BOOL RTIME TIME IP; not strpad/randomstr, whose result size is an argument) is called with pooled variables as its arguments; two variables of a numeric type are seeded with extreme values (1e200, 1e308, 2^63-1, ...) and combined by every compound operator; unary minus/plus is applied to if(), grouped and already signed operands. kind objects: during a real request (miss, pass and error paths) set/add/unset of header A or B on one of req/bereq/beresp/obj/resp leaves the same-named headers of the other objects unchanged. non-trivial: the statement reads >=1 pooled variable other than its target through an operator or call; distinct by program",
+		"straight-line and branching core-language programs over a pool of locals of every type and req headers, plus calls of user subroutines with typed parameters (procedural and functional) that assign to their parameters and own locals and run regex matches, and side-effect-free built-ins; the interpreter is driven statement by statement and the rendering/type/set-ness of every pooled name and re.group.0-3 is snapshotted before and after each statement; oracle (frame conditions): a statement changes only the names it assigns (re.group.* only if it contains a regex match), a call leaves caller locals, capture groups and argument variables unchanged (parameters of type STRING, INTEGER, FLOAT, BOOL, RTIME, IP, TIME, REGEX and BACKEND, each assigned by the callee); TIME, BACKEND and REGEX locals, req.backend and the declared backend identifiers are part of the snapshot and are exercised by time arithmetic inside concatenations, backend assignments and REGEX assignments/parameters; every built-in of builtin.yml whose argument and return types are scalar (STRING INTEGER FLOAT BOOL RTIME TIME IP; not strpad/randomstr/strrep, whose result size is an argument) is called with pooled variables as its arguments; two variables of a numeric type are seeded with extreme values (1e200, 1e308, 2^63-1, ...) and combined by every compound operator; unary minus/plus is applied to if(), grouped and already signed operands. kind objects: during a real request (miss, pass and error paths) set/add/unset of header A or B on one of req/bereq/beresp/obj/resp leaves the same-named headers of the other objects unchanged. non-trivial: the statement reads >=1 pooled variable other than its target through an operator or call; distinct by program",
 		genC13, checkC13, 10*time.Second)
 }
 
@@ -307,7 +307,7 @@ func genC13Builtin(t *rapid.T, g *coreGen) (C13Step, bool) {
 	name := rapid.SampledFrom(builtinNames).Draw(t, "fn")
 	spec := builtinTable[name]
 	// built-ins whose result size is an INTEGER argument are left to C08 (a pooled 2^31-1 asks for gigabytes)
-	if strings.Contains(name, "strpad") || strings.Contains(name, "randomstr") || len(spec.Arguments) == 0 {
+	if strings.Contains(name, "strpad") || strings.Contains(name, "randomstr") || strings.Contains(name, "strrep") || len(spec.Arguments) == 0 {
 		return C13Step{}, false
 	}
 	sig := spec.Arguments[rapid.IntRange(0, len(spec.Arguments)-1).Draw(t, "sig")]
